@@ -69,6 +69,7 @@ GATES = {
         "subst-via:address_to_script_pubkey", "subst-via:to_address",
     ],
     "exhaustive-doubles": {"quick": [], "thorough": ["subst2:exhaustive-address"]},
+    "decode-histories": ["history:decode-again-after-caller-edited-result"],
 }
 
 _state = {"tag": None, "register": True}
@@ -608,6 +609,14 @@ def bech32_grid(ctx, rng, idx, n, p):
                 if d[0] == "ok":
                     if list(d[1]) != [NET_OF_HRP[hrp], ver, prog]:
                         ctx.violation("bech32-roundtrip", f"decode(encode(x)) gave {d[1]!r}", case)
+                    elif isinstance(d[1], list) and i % 3 == 0:
+                        # the caller edits the list it was handed (e.g. relabels tb1... as signet), then the same
+                        # string is decoded again: the answer is a function of the string, not of earlier callers
+                        d[1][0], d[1][1], d[1][2] = "signet", (ver + 1) % 17, prog[::-1] + b"\x00"
+                        d2 = _try(bech32.decode_bech32, o[1])
+                        ctx.count("history:decode-again-after-caller-edited-result")
+                        if d2[0] != "ok" or list(d2[1]) != [NET_OF_HRP[hrp], ver, prog]:
+                            ctx.violation("bech32-decode-depends-on-earlier-caller", f"second decode gave {d2[1]!r}", case)
                 elif standard:
                     ctx.violation("bech32-roundtrip", f"decode(encode(x)) raised {d[1]}", case)
                 else:
